@@ -7,6 +7,7 @@ import (
 	"encoding/binary"
 	"fmt"
 	"math/big"
+	"os"
 	"sort"
 
 	"github.com/youchainhq/go-youchain/common"
@@ -52,7 +53,9 @@ func Install(c Cfg) {
 		panic("parameter table already installed in this process")
 	}
 	installed = true
-	logging.Root().SetHandler(logging.DiscardHandler())
+	if os.Getenv("VERIF_LOG") == "" { // VERIF_LOG=1 keeps the repository's own log output (debugging aid)
+		logging.Root().SetHandler(logging.DiscardHandler())
+	}
 	params.InitNetworkId(params.NetworkIdForTestCase)
 	params.StakeUint.SetInt64(10)
 	v5 := params.Versions[params.YouV5].DeepCopy()
@@ -399,6 +402,7 @@ type BuildHooks struct {
 	Start       func(n uint64, st *state.StateDB, hdr *types.Header)
 	AfterTx     func(i int, a *ATx, r *TxResult, st *state.StateDB, hdr *types.Header)
 	AfterEnd    func(st *state.StateDB, hdr *types.Header, payouts []Payout, rcpt *types.Receipt)
+	Assembled   func(blk *types.Block, stateErr error)          // after FinalizeAndAssemble: the memoized database error of the state
 	BeforeWrite func(blk *types.Block, receipts types.Receipts) // assembled, chain head is still the parent
 	AfterCommit func(blk *types.Block, receipts types.Receipts)
 }
@@ -495,6 +499,9 @@ func (w *World) BuildBlock(ab *ABlock, h *BuildHooks) (*types.Block, types.Recei
 	if err != nil {
 		return nil, nil, err
 	}
+	if h != nil && h.Assembled != nil {
+		h.Assembled(blk, sdb.Error())
+	}
 	// worker.resultLoop: receipts get the block hash, then WriteBlockWithState
 	hash := blk.Hash()
 	out := make([]*types.Receipt, len(rcpts))
@@ -583,6 +590,13 @@ type PendObs struct {
 	X    int64  `json:"x"`
 }
 
+// RecObs is the final value of one staking record of the current period (delegator "-" = the validator's own record).
+type RecObs struct {
+	D  string `json:"d"`
+	V  string `json:"v"`
+	Fv int64  `json:"fv"`
+}
+
 // Buckets are all value buckets of DESIGN.md 7/C07 read from a state.
 type Buckets struct {
 	Bal   []NV      `json:"bal"`
@@ -591,6 +605,7 @@ type Buckets struct {
 	Res   []int64   `json:"res"`   // rewardsResidue, same order
 	Wq    []WqObs   `json:"wq"`
 	Pend  []PendObs `json:"pend"`
+	Recs  []RecObs  `json:"recs"`
 	Infl  int64     `json:"infl"` // header.GasRewards not yet turned into rewards
 	Burnt int64     `json:"burnt"`
 }
@@ -598,7 +613,7 @@ type Buckets struct {
 // ReadBuckets projects a state.  With full=true (committed state) every account of the trie and every staking record is
 // enumerated; otherwise the closed world of the history is read through getters (reads are not journalled).
 func (w *World) ReadBuckets(st *state.StateDB, inflight *big.Int, full bool) *Buckets {
-	b := &Buckets{Bal: []NV{}, Vals: []ValObs{}, Wq: []WqObs{}, Pend: []PendObs{}, Infl: fixture.I(inflight)}
+	b := &Buckets{Bal: []NV{}, Vals: []ValObs{}, Wq: []WqObs{}, Pend: []PendObs{}, Recs: []RecObs{}, Infl: fixture.I(inflight)}
 	known := new(big.Int)
 	for _, n := range w.Order {
 		bal := st.GetBalance(w.Who[n].Addr)
@@ -653,7 +668,10 @@ func (w *World) ReadBuckets(st *state.StateDB, inflight *big.Int, full bool) *Bu
 			To: w.name(r.Recipient), Fin: fixture.I(r.FinalBalance), Ini: fixture.I(r.InitialBalance), Done: int(r.Finished),
 			Ch: int64(r.CompletionHeight)})
 	}
-	addRec := func(rec *state.Record) {
+	addRec := func(d, v common.Address, rec *state.Record) {
+		if rec.FinalValue != nil && rec.FinalValue.Sign() != 0 {
+			b.Recs = append(b.Recs, RecObs{D: w.name(d), V: w.name(v), Fv: fixture.I(rec.FinalValue)})
+		}
 		for _, h := range rec.TxHashes {
 			if info, ok := w.TxKind[h]; ok {
 				b.Pend = append(b.Pend, PendObs{H: info.Id, K: info.Kind, From: info.From, V: info.Val, X: info.Detained})
@@ -663,7 +681,7 @@ func (w *World) ReadBuckets(st *state.StateDB, inflight *big.Int, full bool) *Bu
 		}
 	}
 	if full {
-		if err := st.ForEachStakingRecord(func(d, v common.Address, rec *state.Record) error { addRec(rec); return nil }); err != nil {
+		if err := st.ForEachStakingRecord(func(d, v common.Address, rec *state.Record) error { addRec(d, v, rec); return nil }); err != nil {
 			panic(err)
 		}
 	} else {
@@ -674,11 +692,12 @@ func (w *World) ReadBuckets(st *state.StateDB, inflight *big.Int, full bool) *Bu
 		for _, vn := range w.ValIds {
 			for _, d := range ds {
 				if rec := st.GetStakingRecord(d, w.Who[vn].Addr); rec != nil {
-					addRec(rec)
+					addRec(d, w.Who[vn].Addr, rec)
 				}
 			}
 		}
 	}
 	sort.Slice(b.Pend, func(i, j int) bool { return b.Pend[i].H < b.Pend[j].H })
+	sort.Slice(b.Recs, func(i, j int) bool { return b.Recs[i].D+"/"+b.Recs[i].V < b.Recs[j].D+"/"+b.Recs[j].V })
 	return b
 }
